@@ -43,7 +43,27 @@ def _run_case(case):
     return meanx.compare_result(res, ref)
 
 
+def large_sample_case(seed):
+    """tens of thousands of rows per variant: with use_t the test is still Student's / Welch's t with the exact degrees of
+    freedom (a normal approximation differs from the fifth significant digit of the p-value on)"""
+    import numpy as np
+    r = np.random.default_rng(seed)
+    n0, n1 = 40_000, 30_000
+    cfg = {"numer": "x", "alternative": ["two-sided", "greater", "less"][seed % 3], "confidence_level": "19/20",
+           "equal_var": bool(seed % 2), "use_t": True}
+    case = {"cfg": cfg, "control": {c: list(r.normal(10, 3, n0)) for c in G.COLS},
+            "treatment": {c: list(r.normal(10.03, 3.5, n1)) for c in G.COLS}}
+    return _run_case(case)
+
+
 def oracle(ctx, deep=False):
+    seed = ctx.rng.randint(0, 10**6)
+    bad = large_sample_case(seed)
+    ctx.evaluations += 1
+    ctx.count("oracle:large-sample")
+    if bad:
+        ctx.violations.append({"what": "Mean.analyze differs from the textbook test on a large sample: " + bad[0][0], "detail": str(bad[:4]),
+                               "input": {"large_sample": True, "seed": seed}})
     reuse_oracle(ctx)
     n = ctx.n(150, 4000) * (3 if deep else 1)
     for i in range(n):
@@ -74,6 +94,9 @@ def reuse_oracle(ctx):
 
 
 def replay(ctx, rp):
+    if rp["input"].get("large_sample"):
+        bad = large_sample_case(rp["input"]["seed"])
+        return {"fails": bool(bad), "failures": bad}
     if rp["input"].get("reuse_history"):
         fails = meanx.reuse_history(rp["input"]["seed"], rp["input"]["parameter"])
         return {"fails": bool(fails), "failures": fails}
